@@ -41,6 +41,9 @@ def workdir():
             _WORK = tempfile.mkdtemp(prefix='miasmx-verif-', dir=base)
             _OWN_WORK = True
             os.environ['VERIF_WORK'] = _WORK
+            import atexit
+            owner = os.getpid()
+            atexit.register(lambda: cleanup_workdir() if os.getpid() == owner else None)
     return _WORK
 
 def cleanup_workdir():
